@@ -253,3 +253,81 @@ theorem collectIndexMap_of_distinct (l : List Val) (h : distinctKeys entryKey l 
   simp
 
 end Borsh
+
+namespace Borsh
+
+theorem keyLt_irrefl (key : Val → Val) (a : Val) : keyLt key a a = false := by
+  simp only [keyLt, (Val.cmp_eq (key a) (key a)).mpr rfl]; rfl
+
+theorem keyLt_asymm (key : Val → Val) {a b : Val} (h : keyLt key a b = true) : keyLt key b a = false := by
+  simp only [keyLt, beq_iff_eq] at h
+  simp only [keyLt]
+  rw [Val.cmp_swap, h]; rfl
+
+/-- two strictly ascending lists with the same members are the same list -/
+theorem sa_unique (key : Val → Val) : ∀ l1 l2 : List Val,
+    strictlyAscending key l1 = true → strictlyAscending key l2 = true →
+    (∀ x, x ∈ l1 ↔ x ∈ l2) → l1 = l2 := by
+  intro l1
+  induction l1 with
+  | nil =>
+    intro l2 _ _ hm
+    cases l2 with
+    | nil => rfl
+    | cons b l2 => exact absurd ((hm b).mpr (by simp)) (by simp)
+  | cons a t1 ih =>
+    intro l2 h1 h2 hm
+    cases l2 with
+    | nil => exact absurd ((hm a).mp (by simp)) (by simp)
+    | cons b t2 =>
+      have hab : a = b := by
+        by_cases e : a = b
+        · exact e
+        · have ha : a ∈ t2 := by
+            have := (hm a).mp (by simp)
+            cases List.mem_cons.mp this with
+            | inl h => exact absurd h e
+            | inr h => exact h
+          have hb : b ∈ t1 := by
+            have := (hm b).mpr (by simp)
+            cases List.mem_cons.mp this with
+            | inl h => exact absurd h.symm e
+            | inr h => exact h
+          have l1 := sa_all_lt key t2 b h2 a ha
+          have l2 := sa_all_lt key t1 a h1 b hb
+          rw [keyLt_asymm key l1] at l2
+          exact absurd l2 (by simp)
+      subst hab
+      have hnot1 : a ∉ t1 := by
+        intro h
+        have := sa_all_lt key t1 a h1 a h
+        rw [keyLt_irrefl] at this; exact absurd this (by simp)
+      have hnot2 : a ∉ t2 := by
+        intro h
+        have := sa_all_lt key t2 a h2 a h
+        rw [keyLt_irrefl] at this; exact absurd this (by simp)
+      have hm' : ∀ x, x ∈ t1 ↔ x ∈ t2 := by
+        intro x
+        constructor
+        · intro hx
+          have := (hm x).mp (by simp [hx])
+          cases List.mem_cons.mp this with
+          | inl h => rw [h] at hx; exact absurd hx hnot1
+          | inr h => exact h
+        · intro hx
+          have := (hm x).mpr (by simp [hx])
+          cases List.mem_cons.mp this with
+          | inl h => rw [h] at hx; exact absurd hx hnot2
+          | inr h => exact h
+      rw [ih t2 (sa_tail key h1) (sa_tail key h2) hm']
+
+/-- **the sort is independent of the order in which distinct keys are presented** (hash
+iteration order, insertion history, hasher state) -/
+theorem sortByKey_perm_invariant (key : Val → Val) (vs ws : List Val)
+    (hd1 : distinctKeys key vs = true) (hd2 : distinctKeys key ws = true)
+    (hm : ∀ x, x ∈ vs ↔ x ∈ ws) : sortByKey key vs = sortByKey key ws := by
+  apply sa_unique key _ _ (sortByKey_sa key vs hd1) (sortByKey_sa key ws hd2)
+  intro x
+  rw [mem_sortByKey, mem_sortByKey]; exact hm x
+
+end Borsh
